@@ -69,7 +69,7 @@ EXPECTED_REASON = {
     "T.subject-nonempty": "Certificate Subject", "T.san-missing": "missing extension <ObjectIdentifier(oid=2.5.29.17",
     "T.san-no-manufacturer": "Subject Alt Name was invalid", "T.san-no-model": "Subject Alt Name was invalid",
     "T.san-no-version": "Subject Alt Name was invalid", "T.vendor-unknown": "Unrecognized TPM Manufacturer",
-    "T.eku-missing": "missing extension <ObjectIdentifier(oid=2.5.29.37", "T.eku-other-first": "Extended Key Usage OID",
+    "T.eku-missing": "missing extension <ObjectIdentifier(oid=2.5.29.37", "T.eku-without-aik": "Extended Key Usage OID",
     "T.bc-missing": "missing extension <ObjectIdentifier(oid=2.5.29.19", "T.bc-ca-true": "Basic Constraints CA was not False",
     # apple
     "AP.x5c-missing": "missing x5c (Apple)", "AP.nonce-ext-missing": "missing extension 1.2.840.113635.100.8.2",
@@ -217,7 +217,7 @@ class Report:
             print(f"  {fmt:18} {label:46} {fault or '(unfaulted)':28} {'ACCEPTED' if accepted else 'rejected'}  {reason[:110]}")
         if fault is None and not accepted:
             self.problems.append(f"unfaulted {fmt} [{label}] was REJECTED: {reason}")
-        if fault and not accepted and EXPECTED_REASON[fault] not in reason:
+        if fault and not accepted and fault in EXPECTED_REASON and EXPECTED_REASON[fault] not in reason:
             self.problems.append(f"{fault} on {fmt} [{label}] rejected for an unrelated reason: {reason}")
         if fault in OPENSSL_REASON:
             found = openssl_reason(result.chain, result.chain.x5c())
